@@ -69,23 +69,34 @@ Fixpoint longest_spec (es : list expr) (p : nat) (best : res) : option res :=
                   | Some (v, q), Some (_, bq) => if Nat.ltb bq q then longest_spec es' p (Some (v, q))
                                                  else longest_spec es' p best end)
   end.
-(* after an element: acc holds values so far (reversed), p1 = position after the element *)
-Fixpoint sep_go (k : nat) (e sp : expr) (keep trailer : bool) (acc : list value) (p1 : nat) (saw : bool)
-  : option (list value * nat * bool) :=
+(* one iteration = an element, then a separator; acc = values so far (reversed),
+   cp = where the list ends if it stops now, saw = a separator has been matched *)
+Fixpoint sep_spec (k : nat) (e sp : expr) (keep trailer : bool) (p : nat)
+         (acc : list value) (cp : nat) (saw : bool) : option (list value * nat * bool) :=
   match k with
   | 0 => None
   | S k =>
-    match pg sp p1 with
+    match pg e p with
     | None => None
-    | Some None => Some (acc, p1, saw)
-    | Some (Some (sv, p2)) =>
-      match pg e p2 with
+    | Some None => Some (if keep && negb trailer then tl acc else acc, cp, saw)   (* drop a dangling kept separator *)
+    | Some (Some (v, p1)) =>
+      match pg sp p1 with
       | None => None
-      | Some None => if trailer then Some (if keep then sv :: acc else acc, p2, true) else Some (acc, p1, true)
-      | Some (Some (v2, p3)) => sep_go k e sp keep trailer (v2 :: (if keep then sv :: acc else acc)) p3 true
+      | Some None => Some (v :: acc, p1, saw)
+      | Some (Some (sv, p2)) =>
+          sep_spec k e sp keep trailer p2 (if keep then sv :: v :: acc else v :: acc)
+                   (if trailer then p2 else p1) true
       end
     end
   end.
+Definition sep_final (allow_empty reqsep : bool) (r : list value * nat * bool) : res :=
+  let '(acc, cp, saw) := r in
+  let nonempty := match acc with [] => false | _ => true end in
+  let ok := if allow_empty && reqsep then negb nonempty || saw
+            else if reqsep then saw
+            else if allow_empty then true
+            else nonempty in
+  if ok then Some (VList (rev acc), cp) else None.
 End L.
 
 Fixpoint peg (n : nat) (e : expr) (p : nat) : option res :=
@@ -125,14 +136,10 @@ Fixpoint peg (n : nat) (e : expr) (p : nat) : option res :=
     | Backtrack k => Some (if Nat.leb k p then Some (VNone, p - k) else None)
     | Fail => Some None
     | Sep e sp discard trailer allow_empty reqsep =>
-        obind (peg n e p) (fun r => match r with
-          | None => Some (if allow_empty then Some (VList [], p) else None)
-          | Some (v, p1) =>
-              match sep_go (peg n) n e sp (negb discard) trailer [v] p1 false with
-              | None => None
-              | Some (acc, q, saw) => Some (if reqsep && negb saw then None else Some (VList (rev acc), q))
-              end
-          end)
+        match sep_spec (peg n) n e sp (negb discard) trailer p [] p false with
+        | None => None
+        | Some r => Some (sep_final allow_empty reqsep r)
+        end
     end
   end.
 
